@@ -105,10 +105,12 @@ theorem step_refines (s : FileSt) (op : FOp) (hs : Inv s) : stepC s op = stepS s
         by_cases hr : h.readOnly = true
         · simp [writeC, hc', hr, hsame]
         · have hr' : h.readOnly = false := by simpa using hr
-          obtain ⟨cur, hcur⟩ : ∃ cur : Nat, h.pos = cur := ⟨h.pos.toNat, by omega⟩
-          rw [writeC_eq s.data h b cur hcur hc' hr']
-          have : h.pos.toNat = cur := by omega
-          simp [hc', hr', this]
+          by_cases hb : b = []
+          · simp [writeC, hc', hr', hb, hsame]
+          · obtain ⟨cur, hcur⟩ : ∃ cur : Nat, h.pos = cur := ⟨h.pos.toNat, by omega⟩
+            rw [writeC_eq s.data h b cur hcur hc' hr' hb]
+            have : h.pos.toNat = cur := by omega
+            simp [hc', hr', hb, this]
   | writeAt i b off =>
     simp only [stepC, stepS]
     cases hi : s.hs[i]? with
@@ -130,8 +132,10 @@ theorem step_refines (s : FileSt) (op : FOp) (hs : Inv s) : stepC s op = stepS s
           · obtain ⟨cur, hcur⟩ : ∃ cur : Nat, off = cur := ⟨off.toNat, by omega⟩
             subst hcur
             simp only [ho, if_false]
-            rw [writeC_eq s.data { h with pos := (cur : Int) } b cur rfl hc' hr']
-            simp [hc', hr', hsame']
+            by_cases hb : b = []
+            · simp [writeC, hc', hr', hb, hsame]
+            · rw [writeC_eq s.data { h with pos := (cur : Int) } b cur rfl hc' hr' hb]
+              simp [hc', hr', hb, hsame']
   | truncate i size =>
     simp only [stepC, stepS]
     cases hi : s.hs[i]? with
@@ -198,11 +202,11 @@ theorem stepS_inv (s : FileSt) (op : FOp) (hs : Inv s) : Inv (stepS s op).1 := b
     | none => exact hs
     | some h =>
       have hp := hs h (List.mem_of_getElem? hi)
-      simp only; split
-      · exact hs
-      · split
-        · exact hs
-        · exact inv_setH _ _ _ (inv_data s _ hs) (by simp; omega)
+      simp only
+      repeat' split
+      all_goals first
+        | exact hs
+        | exact inv_setH _ _ _ (inv_data s _ hs) (by simp only; omega)
   | writeAt i b off =>
     simp only [stepS]
     cases hi : s.hs[i]? with
